@@ -21,7 +21,7 @@ import (
 func init() { register("C11", checkC11) }
 
 func checkC11(c *core.Ctx) {
-	c.Explainf("C11 (decided clause: the discipline of the pending 'next record' attributes; faithfulness of a parser as a whole is behaviour and is NOT decided). R1: for the definition loop of ReadFile and the member loops of readEnum/readStruct/readMessage/readUnion, the loop-carried locals that hold a pending attribute (comment lines, opcode, readonly, flags; per-member comment, tags, deprecation) form a typestate {clear, maybe-set}; on every CFG path (go/cfg, with refinement on `if v`/`if v != 0` guards, iterated to a fixpoint over the loop) an iteration that completed a definition reaches the loop head with every pending attribute clear — an attribute annotates one definition and no other. R1b: an iteration that matched a token but completed no definition does not clear a pending opcode/readonly/flags/deprecation (the attribute would be lost before its definition). R2: every definition kind either consumes or rejects each of opcode and flags (kind x attribute matrix). R3: evaluateBitflagExpr instantiates the evaluator with the integer type of exactly the signedness and width it dispatches on, and covers the image of decodeIntegerType. R4: skipFollowingWhitespace skips every byte the token tree treats as insignificant. R5: whether a member is deprecated is recorded by a pure flag set in the clause that called readDeprecated, never derived from the message text (`[deprecated(\"\")]` is well formed). R6: the tokenizer uses no bufio primitive bounded by the buffer size (ReadSlice, ReadLine, Peek, Scanner): comments and literals have no length limit (positive control: fixtures/limitedread). NOT decided: token-to-field mapping, source order, layout independence beyond R4.")
+	c.Explainf("C11 (decided clause: the discipline of the pending 'next record' attributes; faithfulness of a parser as a whole is behaviour and is NOT decided). R1: for the definition loop of ReadFile and the member loops of readEnum/readStruct/readMessage/readUnion, the loop-carried locals that hold a pending attribute (comment lines, opcode, readonly, flags; per-member comment, tags, deprecation) form a typestate {clear, maybe-set}; on every CFG path (go/cfg, with refinement on `if v`/`if v != 0` guards, iterated to a fixpoint over the loop) an iteration that completed a definition reaches the loop head with every pending attribute clear — an attribute annotates one definition and no other. R1b: an iteration that matched a token but completed no definition does not clear a pending opcode/readonly/flags/deprecation (the attribute would be lost before its definition). R2: every definition kind either consumes or rejects each of opcode and flags (kind x attribute matrix). R3: evaluateBitflagExpr instantiates the evaluator with the integer type of exactly the signedness and width it dispatches on, and covers the image of decodeIntegerType. R4: skipFollowingWhitespace skips every byte the token tree treats as insignificant. R5: whether a member is deprecated is recorded by a pure flag set in the clause that called readDeprecated, never derived from the message text (`[deprecated(\"\")]` is well formed). R6: the tokenizer uses no bufio primitive bounded by the buffer size (ReadSlice, ReadLine, Peek, Scanner): comments and literals have no length limit (positive control: fixtures/limitedread). R7: in numberToken's chain of byte classes, for every letter a-f/A-F and every assignment of the boolean locals with the hex flag(s) set, the first condition that holds is the hex-digit arm's (finite decision table over the conditions, the package's one-line predicates inlined). NOT decided: token-to-field mapping, source order, layout independence beyond R4.")
 	p := loadRepo(c)
 	if p == nil {
 		return
@@ -45,6 +45,7 @@ func checkC11(c *core.Ctx) {
 	whitespaceAgreement(c, p)
 	deprecationIndependent(c, p, "R5")
 	limitedBufio(c, p, "R6")
+	hexLettersAreDigits(c, p)
 }
 
 // whitespaceAgreement: R4. Two places decide what is insignificant
@@ -803,4 +804,377 @@ func limitedBufio(c *core.Ctx, p *load.Prog, rule string) {
 		c.Check(rule, "positive control: "+want+" is recognised", "fixtures/limitedread/fx.go", hits[want], "the rule no longer matches the shape it is meant to find")
 	}
 	c.Check(rule, "positive control: ReadBytes is not reported", "fixtures/limitedread/fx.go", !hits["unlimited"], "")
+}
+
+// hexLettersAreDigits: R7. In a hexadecimal literal the letters a-f and A-F
+// are digits — also `e`, which elsewhere in a number announces an exponent.
+// numberToken classifies each byte by a chain of conditions (if/else-if or a
+// tagless switch); the arm that takes hex letters is the one whose condition
+// calls the hex-letter predicate, and the flags joined to that call by && are
+// what "inside a hex literal" means to this code. The rule enumerates every
+// hex letter and every assignment of the boolean locals the conditions read in
+// which those flags are true, evaluates the conditions in order (a finite
+// decision table: bytes compared with constants, booleans, and the package's
+// one-line predicates inlined) and requires the first arm that holds to be the
+// hex-letter arm. An exponent arm placed before it makes `0x1e` an unfinished
+// number and `[opcode(0x4142434E)]` a tokenizer error.
+func hexLettersAreDigits(c *core.Ctx, p *load.Prog) {
+	pkg := p.Bebop()
+	info := pkg.TypesInfo
+	fd := p.FuncDecl(pkg, "numberToken")
+	if fd == nil {
+		c.Undecide("numberToken not found")
+		return
+	}
+	// the byte of this iteration
+	var bvar types.Object
+	ast.Inspect(fd.Body, func(n ast.Node) bool {
+		if as, ok := n.(*ast.AssignStmt); ok && len(as.Lhs) == 2 && len(as.Rhs) == 1 && bvar == nil {
+			if call, ok := as.Rhs[0].(*ast.CallExpr); ok {
+				if t, ok := info.TypeOf(call).(*types.Tuple); ok && t.Len() == 2 {
+					if b, ok := t.At(0).Type().Underlying().(*types.Basic); ok && b.Kind() == types.Uint8 {
+						if id, ok := as.Lhs[0].(*ast.Ident); ok {
+							bvar = info.ObjectOf(id)
+						}
+					}
+				}
+			}
+		}
+		return true
+	})
+	if bvar == nil {
+		c.Undecide("numberToken: the byte read in the loop was not found")
+		return
+	}
+	mentionsB := func(e ast.Expr) bool {
+		found := false
+		ast.Inspect(e, func(n ast.Node) bool {
+			if id, ok := n.(*ast.Ident); ok && info.ObjectOf(id) == bvar {
+				found = true
+			}
+			return !found
+		})
+		return found
+	}
+	// the classification chain: ordered conditions
+	type arm struct {
+		cond ast.Expr // nil = else / default
+		pos  token.Pos
+	}
+	var arms []arm
+	ast.Inspect(fd.Body, func(n ast.Node) bool {
+		if len(arms) > 0 {
+			return false
+		}
+		switch x := n.(type) {
+		case *ast.IfStmt:
+			if x.Init != nil || !mentionsB(x.Cond) || x.Else == nil {
+				return true
+			}
+			cur := x
+			for {
+				arms = append(arms, arm{cur.Cond, cur.Pos()})
+				switch e := cur.Else.(type) {
+				case *ast.IfStmt:
+					cur = e
+					continue
+				case *ast.BlockStmt:
+					arms = append(arms, arm{nil, e.Pos()})
+				}
+				break
+			}
+			if len(arms) < 3 {
+				arms = nil
+				return true
+			}
+			return false
+		case *ast.SwitchStmt:
+			if x.Tag != nil || x.Init != nil {
+				return true
+			}
+			var tmp []arm
+			uses := false
+			for _, cc := range x.Body.List {
+				cl := cc.(*ast.CaseClause)
+				if cl.List == nil {
+					tmp = append(tmp, arm{nil, cl.Pos()})
+					continue
+				}
+				var cond ast.Expr
+				for _, e := range cl.List {
+					if mentionsB(e) {
+						uses = true
+					}
+					if cond == nil {
+						cond = e
+					} else {
+						cond = &ast.BinaryExpr{X: cond, Op: token.LOR, Y: e}
+					}
+				}
+				tmp = append(tmp, arm{cond, cl.Pos()})
+			}
+			if uses && len(tmp) >= 3 {
+				// a default clause is taken last wherever it is written
+				var def *arm
+				for i := range tmp {
+					if tmp[i].cond == nil {
+						d := tmp[i]
+						def = &d
+					} else {
+						arms = append(arms, tmp[i])
+					}
+				}
+				if def != nil {
+					arms = append(arms, *def)
+				}
+				return false
+			}
+		}
+		return true
+	})
+	if len(arms) == 0 {
+		c.Undecide("numberToken: no chain of conditions on the byte read was found")
+		return
+	}
+	// three-valued evaluation: 0 false, 1 true, -1 unknown
+	type env struct {
+		b     int
+		bools map[types.Object]bool
+		subst map[types.Object]int // parameter of an inlined predicate -> byte value
+	}
+	var evalInt func(e ast.Expr, en env) (int, bool)
+	var evalBool func(e ast.Expr, en env, depth int) int
+	evalInt = func(e ast.Expr, en env) (int, bool) {
+		e = ast.Unparen(e)
+		if v, ok := constInt(info, e); ok {
+			return v, true
+		}
+		if id, ok := e.(*ast.Ident); ok {
+			o := info.ObjectOf(id)
+			if o == bvar {
+				return en.b, true
+			}
+			if v, ok := en.subst[o]; ok {
+				return v, true
+			}
+		}
+		if call, ok := e.(*ast.CallExpr); ok && len(call.Args) == 1 {
+			if tv, ok := info.Types[call.Fun]; ok && tv.IsType() {
+				return evalInt(call.Args[0], en)
+			}
+		}
+		return 0, false
+	}
+	evalBool = func(e ast.Expr, en env, depth int) int {
+		e = ast.Unparen(e)
+		switch x := e.(type) {
+		case *ast.Ident:
+			if v, ok := en.bools[info.ObjectOf(x)]; ok {
+				if v {
+					return 1
+				}
+				return 0
+			}
+			if tv := info.Types[x]; tv.Value != nil {
+				if tv.Value.String() == "true" {
+					return 1
+				}
+				return 0
+			}
+		case *ast.UnaryExpr:
+			if x.Op == token.NOT {
+				switch evalBool(x.X, en, depth) {
+				case 1:
+					return 0
+				case 0:
+					return 1
+				}
+			}
+		case *ast.BinaryExpr:
+			switch x.Op {
+			case token.LAND:
+				a, b := evalBool(x.X, en, depth), evalBool(x.Y, en, depth)
+				if a == 0 || b == 0 {
+					return 0
+				}
+				if a == 1 && b == 1 {
+					return 1
+				}
+				return -1
+			case token.LOR:
+				a, b := evalBool(x.X, en, depth), evalBool(x.Y, en, depth)
+				if a == 1 || b == 1 {
+					return 1
+				}
+				if a == 0 && b == 0 {
+					return 0
+				}
+				return -1
+			case token.EQL, token.NEQ, token.LSS, token.LEQ, token.GTR, token.GEQ:
+				a, ok1 := evalInt(x.X, en)
+				b, ok2 := evalInt(x.Y, en)
+				if !ok1 || !ok2 {
+					return -1
+				}
+				r := false
+				switch x.Op {
+				case token.EQL:
+					r = a == b
+				case token.NEQ:
+					r = a != b
+				case token.LSS:
+					r = a < b
+				case token.LEQ:
+					r = a <= b
+				case token.GTR:
+					r = a > b
+				case token.GEQ:
+					r = a >= b
+				}
+				if r {
+					return 1
+				}
+				return 0
+			}
+		case *ast.CallExpr:
+			// a one-line predicate of this package on a byte
+			cal := load.Callee(info, x)
+			if cal == nil || cal.Pkg() != pkg.Types || len(x.Args) != 1 || depth > 2 {
+				return -1
+			}
+			d := p.Decl(cal)
+			if d == nil || d.Body == nil || len(d.Body.List) != 1 || len(d.Type.Params.List) != 1 || len(d.Type.Params.List[0].Names) != 1 {
+				return -1
+			}
+			ret, ok := d.Body.List[0].(*ast.ReturnStmt)
+			if !ok || len(ret.Results) != 1 {
+				return -1
+			}
+			v, okv := evalInt(x.Args[0], en)
+			if !okv {
+				return -1
+			}
+			inner := env{b: en.b, bools: en.bools, subst: map[types.Object]int{info.Defs[d.Type.Params.List[0].Names[0]]: v}}
+			return evalBool(ret.Results[0], inner, depth+1)
+		}
+		return -1
+	}
+	// the hex-letter arm: its condition accepts 'c' and 'C' with every boolean
+	// true and rejects 'g'; the flags it needs are the booleans whose being
+	// false alone switches it off
+	var flags []types.Object
+	seenFlag := map[types.Object]bool{}
+	for _, a := range arms {
+		if a.cond == nil {
+			continue
+		}
+		ast.Inspect(a.cond, func(n ast.Node) bool {
+			if id, ok := n.(*ast.Ident); ok {
+				if v, ok := info.ObjectOf(id).(*types.Var); ok && v != bvar {
+					if b, isB := v.Type().Underlying().(*types.Basic); isB && b.Kind() == types.Bool && !seenFlag[v] {
+						seenFlag[v] = true
+						flags = append(flags, v)
+					}
+				}
+			}
+			return true
+		})
+	}
+	if len(flags) > 10 {
+		c.Undecide("numberToken: too many boolean locals in the classification chain")
+		return
+	}
+	allTrue := map[types.Object]bool{}
+	for _, f := range flags {
+		allTrue[f] = true
+	}
+	// the hex-letter arm calls a predicate (it is the only arm that takes a
+	// whole range of letters): find the arm whose condition, through a call,
+	// holds for 'c' and 'C' and not for 'g'
+	hexArm := -1
+	for i, a := range arms {
+		if a.cond == nil {
+			continue
+		}
+		hasCall := false
+		ast.Inspect(a.cond, func(n ast.Node) bool {
+			if call, ok := n.(*ast.CallExpr); ok {
+				if cal := load.Callee(info, call); cal != nil && cal.Pkg() == pkg.Types {
+					hasCall = true
+				}
+			}
+			return true
+		})
+		if hasCall && evalBool(a.cond, env{b: 'c', bools: allTrue}, 0) == 1 && evalBool(a.cond, env{b: 'C', bools: allTrue}, 0) == 1 && evalBool(a.cond, env{b: 'g', bools: allTrue}, 0) == 0 {
+			hexArm = i
+			break
+		}
+	}
+	if hexArm < 0 {
+		c.Undecide("numberToken: no arm of the classification chain takes the letters a-f through a predicate: how hex digits are recognised is not understood")
+		return
+	}
+	var need []types.Object
+	for _, f := range flags {
+		st := map[types.Object]bool{}
+		for k, v := range allTrue {
+			st[k] = v
+		}
+		st[f] = false
+		if evalBool(arms[hexArm].cond, env{b: 'c', bools: st}, 0) == 0 {
+			need = append(need, f)
+		}
+	}
+	// enumerate
+	bad, unknown := "", ""
+	nStates := 0
+	for mask := 0; mask < 1<<len(flags); mask++ {
+		st := map[types.Object]bool{}
+		for i, f := range flags {
+			st[f] = mask&(1<<i) != 0
+		}
+		inHex := true
+		for _, f := range need {
+			if !st[f] {
+				inHex = false
+			}
+		}
+		if !inHex {
+			continue
+		}
+		for _, b := range []byte("abcdefABCDEF") {
+			nStates++
+			first := -1
+			for i, a := range arms {
+				v := 1
+				if a.cond != nil {
+					v = evalBool(a.cond, env{b: int(b), bools: st}, 0)
+				}
+				if v == -1 {
+					unknown = fmt.Sprintf("the condition at %s could not be evaluated", p.Pos(a.pos))
+					break
+				}
+				if v == 1 {
+					first = i
+					break
+				}
+			}
+			if first != hexArm && first >= 0 && bad == "" {
+				var on []string
+				for _, f := range flags {
+					if st[f] {
+						on = append(on, f.Name())
+					}
+				}
+				bad = fmt.Sprintf("the byte %q with %v set is taken by the arm at %s, ahead of the hex-digit arm at %s", string(rune(b)), on, p.Pos(arms[first].pos), p.Pos(arms[hexArm].pos))
+			}
+		}
+	}
+	if unknown != "" && bad == "" {
+		c.Undecide("numberToken: %s", unknown)
+		return
+	}
+	c.Count("number_classification_states", nStates)
+	c.Check("R7", "inside a hex literal every letter a-f/A-F is taken as a digit", p.Pos(fd.Pos()), bad == "",
+		bad+": a hex literal that contains that letter (`0x1e`, `0xBEEFCAFE`, an opcode) is mis-read — as an unfinished exponent, for instance — and a well-formed schema is rejected or read with another value")
 }
